@@ -18,7 +18,7 @@ import real
 
 ACTS = [["read"], ["write"], ["*"], ["read", "*"]]
 TYPES = ["doc", "file", ["doc", "file"], "*"]
-IDS = ["1", "2", None]
+IDS = ["1", "2", None, "*"]
 ATTRS = [{"level": 1}, {"level": 2}, None]
 REQS = [
     {"sid": "u", "roles": [], "sattrs": {}, "action": "read", "rtype": "doc", "rid": "1", "rattrs": {"level": 1}, "ctx": {}},
